@@ -269,6 +269,28 @@ def fan_in_family():
     return out
 
 
+def local_chain_family():
+    """A port declared over a local variable that is built on ANOTHER local variable, itself built on the symbol a port defines
+    (P = Q + 1, Q = 2*N, in_0: N, in_1: P), the local variables declared in either order."""
+    def node(name, params=(), ports=(), conns=(), kids=(), links=(), locs=()):
+        return {"name": name, "type": None, "input_params": list(params), "local_variables": [list(l) for l in locs], "linked_params": [list(l) for l in links],
+                "ports": list(ports), "resources": [], "connections": [list(c) for c in conns], "repetition": None, "children": list(kids)}
+
+    def port(n, d, size):
+        return {"name": n, "direction": d, "size": size}
+    out = []
+    chain = [["P", E.op("add", E.sym("Q"), E.num(1))], ["Q", E.op("mul", E.num(2), E.sym("N"))]]
+    chain3 = [["R", E.op("add", E.sym("P"), E.sym("Q"))]] + chain
+    for locs in (chain, chain[::-1], chain3, chain3[::-1]):
+        top = locs[0][0] if locs[0][0] in ("P", "R") else locs[-1][0]
+        for decl in (E.sym(top), E.op("add", E.sym(top), E.num(1))):
+            a = node("a", locs=locs, ports=[port("in_0", "input", E.sym("N")), port("in_1", "input", decl)])
+            root = node("root", params=["K", "M"], ports=[port("in_0", "input", E.sym("K")), port("in_1", "input", E.sym("M"))],
+                        conns=[["in_0", "a.in_0"], ["in_1", "a.in_1"]], kids=[a])
+            out.append({"routine": root, "seed": 51 + len(out), "n_assign": 8, "native": False, "lo": 1})
+    return out
+
+
 def gen_cases(rng, n, max_depth):
     out = []
     while len(out) < n:
@@ -343,7 +365,7 @@ def mk_stream(cases):
 def streams(tier, seed):
     rng = lib.Rng(f"C06-{seed}")
     n = 150 if tier == "quick" else 2500
-    return [mk_stream(lib.load_corpus(PROP, "size-mismatch") + deep_link_family() + fan_in_family() + gen_cases(rng, n, 3))]
+    return [mk_stream(lib.load_corpus(PROP, "size-mismatch") + deep_link_family() + fan_in_family() + local_chain_family() + gen_cases(rng, n, 3))]
 
 
 def replay_streams(payload):
